@@ -188,20 +188,22 @@ const (
 	OpBefore      // register a BeforeFunc
 	OpRender      // A=kind (needs Render)
 	OpRedirect
-	OpStatus     // note Status()/Written()/Size()
-	OpCookie     // SetCookie
-	OpSeeSvc     // note the application service seen through DI
-	OpSeeHeaders // note the response header keys present so far
-	OpMapIface   // c.MapTo(value, (*Labeler)(nil)): a request-scoped interface mapping
-	OpSeeIface   // note the Labeler visible through DI
-	OpInvoke     // c.Invoke(func(Token) ...) from inside the handler: a nested resolution in request scope
-	OpApply      // c.Apply(&struct{... `inject`}) in request scope
-	OpSetCL      // announce a Content-Length the handler may never honour
-	OpSeePath    // note the request path and method the handler sees
-	OpSeeBody    // read the request body through Request().Body() and note it
-	OpMapRH      // map a request-scoped ReturnHandler that marks what it renders
-	OpMutQuery   // fetch QueryStrings and overwrite the returned slice (must not reach anybody else)
-	OpReplaceCtx // install a derived cancellable context as the request's context (what a timeout middleware does); later cancels hit that one
+	OpStatus       // note Status()/Written()/Size()
+	OpCookie       // SetCookie
+	OpSeeSvc       // note the application service seen through DI
+	OpSeeHeaders   // note the response header keys present so far
+	OpMapIface     // c.MapTo(value, (*Labeler)(nil)): a request-scoped interface mapping
+	OpSeeIface     // note the Labeler visible through DI
+	OpInvoke       // c.Invoke(func(Token) ...) from inside the handler: a nested resolution in request scope
+	OpApply        // c.Apply(&struct{... `inject`}) in request scope
+	OpSetCL        // announce a Content-Length the handler may never honour
+	OpExpireCtx    // install a derived context whose deadline has already passed (context.DeadlineExceeded, no timer)
+	OpMapOwnWriter // map an independent flamego.ResponseWriter (a buffering substitute) as the http.ResponseWriter service
+	OpSeePath      // note the request path and method the handler sees
+	OpSeeBody      // read the request body through Request().Body() and note it
+	OpMapRH        // map a request-scoped ReturnHandler that marks what it renders
+	OpMutQuery     // fetch QueryStrings and overwrite the returned slice (must not reach anybody else)
+	OpReplaceCtx   // install a derived cancellable context as the request's context (what a timeout middleware does); later cancels hit that one
 	opMax
 )
 
@@ -251,6 +253,7 @@ type Req struct {
 	ETagOf        *Req // take If-None-Match from the ETag this earlier request of the same task was answered with
 	Flusher       bool
 	Deadline      int64 // virtual ticks after start; 0 none
+	CtxErr        int   // what the request context reports once cancelled: 0 Canceled, 1 DeadlineExceeded, 2 a custom error
 	PlannedCancel int   // CancelAt as generated (Local.CancelAt is consumed during the run)
 	Tag           string
 	Body          string // request body (empty: none)
@@ -265,6 +268,7 @@ type Req struct {
 	started       int64
 	AsyncCancelAt int // CIdx at which an asynchronous cancel landed; -1: none
 	rawCancel     func()
+	substituted   bool // a handler mapped its own writer as the http.ResponseWriter service
 	fsCalls       int
 }
 
